@@ -54,6 +54,9 @@ pub enum SlinkyError {
         segment: Cow<'static, str>,
     },
 
+    #[error("`single_segment_mode` requires exactly one segment, but {count} were given")]
+    InvalidSegmentCountForSingleSegmentMode { count: usize },
+
     #[error("Segment '{segment}' references undefined vram class '{vram_class}'")]
     MissingVramClassForSegment {
         segment: Cow<'static, str>,
